@@ -1,0 +1,45 @@
+//go:build verif
+
+package executor
+
+import (
+	"github.com/AliceO2Group/Control/executor/executable"
+	mesos "github.com/mesos/mesos-go/api/v1/lib"
+	"github.com/mesos/mesos-go/api/v1/lib/encoding"
+	"github.com/mesos/mesos-go/api/v1/lib/executor"
+	"github.com/mesos/mesos-go/api/v1/lib/executor/calls"
+	"github.com/mesos/mesos-go/api/v1/lib/executor/events"
+)
+
+// ExecutorForVerif is the executor's internal state and event handler exactly as Run builds
+// them, on top of an injected sender instead of the HTTP client to the agent.
+type ExecutorForVerif struct {
+	state   *internalState
+	handler events.Handler
+}
+
+func NewExecutorForVerif(cli calls.Sender) *ExecutorForVerif {
+	state := &internalState{
+		cli:            cli,
+		unackedTasks:   make(map[mesos.TaskID]mesos.TaskInfo),
+		unackedUpdates: make(map[string]executor.Call_Update),
+		failedTasks:    make(map[mesos.TaskID]mesos.TaskStatus),
+		killedTasks:    make(map[mesos.TaskID]mesos.TaskStatus),
+		activeTasks:    make(map[mesos.TaskID]executable.Task),
+		statusCh:       make(chan mesos.TaskStatus, 1024),
+		messageCh:      make(chan []byte),
+	}
+	return &ExecutorForVerif{state: state, handler: buildEventHandler(state)}
+}
+
+// EventLoop runs the executor's event loop on one subscription.
+func (e *ExecutorForVerif) EventLoop(decoder encoding.Decoder) error {
+	return eventLoop(e.state, decoder, e.handler)
+}
+
+func (e *ExecutorForVerif) ShouldQuit() bool { return e.state.shouldQuit }
+
+// Unacknowledged returns what Run would put in a re-SUBSCRIBE call.
+func (e *ExecutorForVerif) Unacknowledged() ([]mesos.TaskInfo, []executor.Call_Update) {
+	return unacknowledgedTasks(e.state), unacknowledgedUpdates(e.state)
+}
